@@ -1,5 +1,7 @@
 """World: modules under check, sidecar contracts, speclib; function verification driver."""
 import ast
+import os
+import time
 
 import z3
 
@@ -46,6 +48,7 @@ class World:
         self.speclib = speclib
         self.spec_env = dict(spec_env or {})
         self.contracts = {}         # (module, qualname) -> Contract
+        self.vcgen_budget = float(os.environ.get("VERIF_VCGEN_BUDGET") or 120)
         self.setattr_hooks = {}
         self._loop_ord = {}
         self._expr_cache = {}
@@ -201,12 +204,15 @@ class World:
         f = VFunc("user", c.qualname, node=node, cls=cname, module=mod)
         stack = [[]]
         all_obls = []
+        t_start = time.time()
         stats = dict(paths=0, normal=0, exceptional=0, cut=0, feasible_normal=False)
         while stack:
             prefix = stack.pop()
             stats["paths"] += 1
             if stats["paths"] > max_paths:
                 raise Unsupported("more than %d paths in %s" % (max_paths, c.qualname))
+            if time.time() - t_start > self.vcgen_budget:
+                raise Unsupported("path exploration of %s exceeded %d s (%d paths so far)" % (c.qualname, self.vcgen_budget, stats["paths"]))
             reset_names()
             ex = Ex(self, prefix)
             ex.contract = c
